@@ -339,6 +339,36 @@ CLAIMED = {
         note="Update sequences <=3 (3 nodes) / <=2 (4 nodes; thorough replays a seeded sample of 100k of 252k scripts). Large posets: sampled "
              "roots/pairs. subsumes()-predicate rewrites not compared. Labels fixed after build.",
         ref="DESIGN.md §4 C28"),
+    "C26": dict(
+        text="Algo.tla defines every algorithm by brute force over a directed multigraph (sequence of [s,d,w,type]): WCC/SCC = classes of "
+             "(mutual) reachability via simple paths; BFS/Dijkstra = a real walk whose cost equals the claimed cost and the minimum over "
+             "all simple paths, none iff unreachable; max flow = minimum over all s-t cuts; MST = minimum over all spanning relationship "
+             "subsets of the start node's component, returned edges a real spanning tree of that weight; triangles, undirected and "
+             "Fagiolo-directed LCC and the leapfrog triangle count by definition. MC_Algo.tla enumerates every multigraph as a bag (both "
+             "insertion orders), checks cross-characterisations (Kruskal = brute-force MST, SCC refines WCC, cut and cost bounds, LCC "
+             "identities) and finds the pinned-Prim witness as a self-test. Each graph is replayed on the crate functions (both index "
+             "orders) and through CALL algo.* on a real GraphStore for label / type / weight-property projections; Algo_Trace.tla "
+             "recomputes each definition from the logged relationship list. The n>=1000 rayon branches of triangle count / LCC are "
+             "reached with disjoint copies under 1- and 8-thread pools.",
+        note="Exhaustive <=3 nodes/<=4 relationships and <=4 nodes/<=3 relationships (weights {1,2,3}, {1,2} at the largest count); plus all "
+             "insertion sequences of 3-node/<=3-relationship graphs and 5/6-node TLC-simulated multigraphs against the same definitions. "
+             "Random graphs of 20-300 nodes by certificates only: paths and WCC/SCC completely, max flow only by sampled-cut upper bounds, "
+             "triangles/LCC only as parallel = sequential. s # t for max flow; CALL algo.mst start node unspecified; leapfrog count after "
+             "compaction only; no deletions or version bumps, so the C06/C07 store findings do not interact.",
+        ref="DESIGN.md §4 C26"),
+    "C27": dict(
+        text="Algo.tla defines PageRank as the LDBC Graphalytics iteration in exact rational arithmetic (dampings 1/2, 3/4, 1/4; <=3 "
+             "iterations; tolerance as strict L1 change; with and without dangling redistribution; sum = 1 when redistributed) and CDLP as "
+             "the synchronous LDBC iteration with smallest-label tie-breaking (every relationship end votes). TLC enumerates all "
+             "multigraphs with <=3 nodes/<=4 and <=4 nodes/<=3 relationships plus simulated 5/6-node graphs, proves sum-to-one and the "
+             "disjoint-union lemma (score/k per copy, the copy's own labels, k = 2, 3) on the design, and finds the no-redistribution "
+             "counterexample as a self-test. page_rank / cdlp (both index orders) and CALL algo.pageRank / algo.cdlp with label/type "
+             "projections are validated at 10^-6 per score / exactly for labels; the n>=1000 rayon branches are reached with ceil(1000/n) "
+             "disjoint copies under pools of 1 and 8 threads.",
+        note="Exact comparison on graphs of <=6 nodes only (32-bit TLC integers; <=2 iterations at 5/6 nodes). Random graphs of 20-300 nodes: "
+             "only parallel path (1/8 threads, copies crossing the threshold) = sequential path, at 2*10^-6. CALL algo.pageRank exposes "
+             "only iterations and damping. CDLP's iteration counter only required to be <= k and consistent with the labelling.",
+        ref="DESIGN.md §4 C26/C27"),
 }
 
 NOT_YET = "check not built yet in this round (planned in DESIGN.md §4); not claimed until its check is green on the unchanged tree"
